@@ -156,3 +156,442 @@ def gen_search_cases(rng, tier):
         cases.append(make_case(i, tag, attrs, body, variant, rng.choice(ctxs), contexts))
         i += 1
     return cases
+
+
+# --------------------------------------------------------------------------- search: running + triage
+
+PP_RX = re.compile(r"</?(noinclude|includeonly|onlyinclude)(\s[^<>]*)?/?>", re.I)
+
+
+def run_tree(cases, src, nproc):
+    """Run the tree oracle on the real code (several harness processes)."""
+    if not cases:
+        return []
+    nproc = max(1, min(nproc, (len(cases) + 199) // 200))
+    chunks = [cases[i::nproc] for i in range(nproc)]
+
+    def work(ch):
+        inp = "".join(json.dumps(c) + "\n" for c in ch)
+        rc, out = core.run_impl("vt.harness.c09_tree", [], src=src, input=inp, timeout=3000)
+        res = {}
+        for ln in out.splitlines():
+            if ln.startswith("{"):
+                r = json.loads(ln)
+                res[r["id"]] = r
+        if rc != 0 or len(res) != len(ch):
+            raise RuntimeError("tree harness failed rc=%s got %d/%d: %s" % (rc, len(res), len(ch), out[-600:]))
+        return res
+
+    allres = {}
+    with ThreadPoolExecutor(nproc) as ex:
+        for res in ex.map(work, chunks):
+            allres.update(res)
+    return [allres[c["id"]] for c in cases]
+
+
+def neutralise(case, what, contexts):
+    """Variant of a failing case with one suspected cause removed from the body (attribution by difference)."""
+    body = case["body"]
+    if what == "pp":
+        body2 = PP_RX.sub(lambda m: m.group(0).replace("<", "(").replace(">", ")"), body)
+    elif what == "src":
+        body2 = re.sub(r"(?i)</source", "(/source", body)
+    else:
+        raise ValueError(what)
+    if body2 == body:
+        return None
+    c = make_case(case["id"], case["tag"], case["attrs"], body2, case["variant"], case["ctx"], contexts)
+    return c
+
+
+def shrink(case, src, contexts, rounds=8):
+    """Batched greedy deletion (one harness process per round) keeping the mismatch."""
+    body = case["body"]
+    for _ in range(rounds):
+        cands = []
+        for step in sorted({max(1, len(body) // 2), max(1, len(body) // 4), 2, 1}, reverse=True):
+            for i in range(0, len(body), step):
+                cand = body[:i] + body[i + step:]
+                if cand and cand != body and not closes(case["tag"], cand) and cand not in cands:
+                    cands.append(cand)
+        if not cands:
+            break
+        cs = [make_case(j, case["tag"], case["attrs"], b, case["variant"], case["ctx"], contexts) for j, b in enumerate(cands)]
+        rs = run_tree(cs, src, 4)
+        failing = [c["body"] for c, r in zip(cs, rs) if not r["ok"] and r["kind"] == "mismatch"]
+        if not failing:
+            break
+        body = min(failing, key=len)
+    return make_case(0, case["tag"], case["attrs"], body, case["variant"], case["ctx"], contexts)
+
+
+# --------------------------------------------------------------------------- tie: generation
+
+OTHER_NAMES = ["ref", "gallery", "poem", "imagemap", "pages", "rot13", "idl", "hiero", "time"]
+NON_NAMES = ["b", "span", "prex", "nowikix", "sourc", "nowik", "references", "mat"]
+TIE_ATTRS = ["", "", "", " ", " a=b", "\n", " /", "/", " a=/", " a<b", "\tx='y'", "x", " x", "\x1cq", " a=\"b\" c", "  ", " / ",
+             " a>b", " z=1"]
+EXOTIC = {"k": "K", "s": "ſ", "i": "İ", "I": "ı"}
+RANDS = ["0123456789abcdef", "a", "deadbeefdeadbeef", "0000000000000000", "f0f0f0f0f0f0f0f0"]
+
+
+def case_variant(rng, name):
+    r = rng.random()
+    if r < 0.55:
+        return name
+    if r < 0.7:
+        return name.upper()
+    if r < 0.85:
+        return "".join(ch.upper() if rng.random() < 0.5 else ch for ch in name)
+    # one exotic (non-ASCII) code point that re.IGNORECASE folds onto an ASCII letter
+    idx = [i for i, ch in enumerate(name) if ch in "ksi"]
+    if not idx:
+        return name.capitalize()
+    i = rng.choice(idx)
+    ch = name[i]
+    rep = EXOTIC[ch] if ch != "i" else rng.choice([EXOTIC["i"], EXOTIC["I"]])
+    return name[:i] + rep + name[i + 1:]
+
+
+def gen_tagpiece(rng, names):
+    r = rng.random()
+    if r < 0.7:
+        name = rng.choice(OPAQUE)
+    elif r < 0.82:
+        name = rng.choice(OTHER_NAMES)
+    elif r < 0.9:
+        name = rng.choice(names)
+    else:
+        name = rng.choice(NON_NAMES)
+    o = case_variant(rng, name)
+    attrs = rng.choice(TIE_ATTRS)
+    body = "".join(rng.choice(FRAGS) for _ in range(rng.randint(0, 3)))
+    if rng.random() < 0.15:
+        body = body + "<" + name + ">" + rng.choice(FRAGS)          # nested same-name opening
+    t = rng.random()
+    if t < 0.12:
+        return "<%s%s/>" % (o, attrs)                               # self-closing
+    if t < 0.24:
+        return "<%s%s>%s" % (o, attrs, body)                        # unclosed
+    if t < 0.30:
+        return "<%s%s>%s</%s>" % (o, attrs, body, rng.choice(OPAQUE + NON_NAMES))   # closed by another tag
+    c = case_variant(rng, name) if rng.random() < 0.5 else o
+    ws = rng.choice(["", "", "", " ", "\n", " \t", " ", "x", "/"])
+    tail = ""
+    if rng.random() < 0.2:
+        tail = rng.choice(FRAGS) + "</%s>" % name                   # a second closing tag (non-greedy body)
+    return "<%s%s>%s</%s%s>%s" % (o, attrs, body, c, ws, tail)
+
+
+def gen_comment(rng):
+    pre = rng.choice(["", "", "\n", "\n  ", " ", "x\n", "\n\n", "\n \n"])
+    inner = rng.choice(["", "c", "-", "->", "--", " <nowiki>x</nowiki> ", "\n", " a\nb ", "<!--", "<math>", "</math>"])
+    close = rng.choice(["-->", "-->", "-->", "-->", "", "--->", "-- >"])
+    post = rng.choice(["", "", "\n", "  \n", " ", " x", "\n\n", "\n<!--d-->\n"])
+    return pre + "<!--" + inner + close + post
+
+
+def gen_markerlike(rng, rand, k0):
+    name = rng.choice(["nowiki", "math", "pre", "x", "NOWIKI", "a-b", "", "ſource", "r2d2"])
+    num = rng.choice([str(k0), str(k0 + 1), "0", "7", "", "١", "1٢", "x", "007"])
+    rnd = rng.choice([rand, rand, "abc", "ABC", "", "g", rand + "0"])
+    head = rng.choice(["\x7fUNIQ-", "\x7fUNIQ-", "\x7fUNIQ-", "UNIQ-", "\x7funiq-", "\x7f"])
+    tail = rng.choice(["-QINU\x7f", "-QINU\x7f", "-QINU\x7f", "-QINU", "-qinu\x7f", "\x7f"])
+    return head + name + "-" + num + "-" + rnd + tail
+
+
+def gen_tie_case(rng, i, names, tier):
+    rand = rng.choice(RANDS)
+    k0 = rng.choice([0, 0, 0, 1, 9, 10, 99, 123])
+    parts = []
+    for _ in range(rng.randint(1, 5 if tier == "quick" else 7)):
+        r = rng.random()
+        if r < 0.5:
+            parts.append(gen_tagpiece(rng, names))
+        elif r < 0.68:
+            parts.append(gen_comment(rng))
+        elif r < 0.93:
+            parts.append("".join(rng.choice(FRAGS) for _ in range(rng.randint(1, 3))))
+        else:
+            parts.append(gen_markerlike(rng, rand, k0))
+    text = "".join(parts)
+    probe = "".join(rng.choice([gen_markerlike(rng, rand, k0), "\x7fUNIQ-%s-%d-%s-QINU\x7f" % (rng.choice(OPAQUE), k0 + rng.randint(0, 2), rand),
+                                rng.choice(FRAGS)]) for _ in range(rng.randint(0, 4)))
+    return {"id": i, "rand": rand, "k0": k0, "text": text, "probe": probe}
+
+
+def systematic_tie_cases(start):
+    """tags x attribute forms x termination forms, one occurrence (exhaustive small part)."""
+    cases = []
+    i = start
+    for tag in OPAQUE + ["ref", "b"]:
+        for attrs in TIE_ATTRS:
+            for form in ["<%s%s>''b''</%s>", "<%s%s/>", "<%s%s>x", "<%s%s>a<%s>b</%s>c</%s>", "<%s%s>x</%s >", "<%s%s></%s>"]:
+                n = form.count("%s")
+                args = [tag, attrs] + [tag] * (n - 2)
+                for up in (False, True):
+                    if up:
+                        args[0] = tag.upper()
+                    cases.append({"id": i, "rand": RANDS[0], "k0": 0, "text": "p " + form % tuple(args) + " q", "probe": ""})
+                    i += 1
+    return cases
+
+
+# --------------------------------------------------------------------------- tie: running
+
+def model_run(exe, cases):
+    lines = "".join("|".join([core.cps(c["rand"]), core.cps(str(c["k0"])), core.cps(c["text"]), core.cps(c["probe"])]) + "\n" for c in cases)
+    p = subprocess.run([exe], input=lines, capture_output=True, text=True, timeout=3000)
+    res = []
+    for ln in p.stdout.splitlines():
+        f = [core.uncps(x) for x in ln.split("|")]
+        if ln == "ERR" or len(f) < 5 or (len(f) - 5) % 5:
+            res.append(None)
+            continue
+        res.append({"protected": f[0], "restored": f[1], "probe_restored": f[2], "tuniq": f[3] == "\x01", "tok": f[4] == "\x01",
+                    "table": [f[5 + 5 * j: 10 + 5 * j] for j in range((len(f) - 5) // 5)]})
+    if len(res) != len(cases):
+        raise RuntimeError("model driver returned %d/%d lines: %s" % (len(res), len(cases), p.stderr[-500:]))
+    return res
+
+
+def impl_run(cases, src):
+    inp = "".join(json.dumps(c) + "\n" for c in cases)
+    rc, out = core.run_impl("vt.harness.c09_impl", ["tie"], src=src, input=inp, timeout=3000)
+    res = [json.loads(ln) for ln in out.splitlines() if ln.startswith("{")]
+    if rc != 0 or len(res) != len(cases):
+        raise RuntimeError("impl harness failed rc=%s got %d/%d: %s" % (rc, len(res), len(cases), out[-600:]))
+    return res
+
+
+T_UNIQ_RX = re.compile("\x7fUNIQ-[a-z0-9]+-[0-9]+-[0-9a-f]+-QINU\x7f")      # _uscan.re:258
+SPECIALS = set("{}[]|=<>")
+
+
+def roundtrip_monitor(run, c, r):
+    """The property's own oracle on replace_tags/replace_uniq of the real code (no model involved)."""
+    t = c["text"]
+    if "\x7f" in t or "error" in r:
+        return
+    exotic = any(ch in t for ch in EXOTIC.values())
+    if "\x7f" in r["restored"]:
+        fp = "roundtrip:nonascii-casefold-tagname" if exotic else "roundtrip:marker-survives:" + json.dumps(t)
+        run.hit(fp, "replace_uniq(replace_tags(t)) still contains a marker: the region is lost (text %r)" % t[:120],
+                {"kind": "roundtrip", "case": c})
+    elif "<!--" not in t and not re.search(r"(?i)<nowiki", t) and not exotic and r["restored"] != t:
+        run.hit("roundtrip:not-lossless:" + json.dumps(t), "text without comments/nowiki is changed by protect+restore: %r -> %r" % (t[:120], r["restored"][:120]),
+                {"kind": "roundtrip", "case": c})
+    for m, tag, _vl, _in, _co in r["table"]:
+        if re.fullmatch("[a-z0-9]+", tag):
+            if not T_UNIQ_RX.fullmatch(m) or SPECIALS & set(m) or any(ch.isspace() for ch in m):
+                run.hit("marker:malformed:" + json.dumps(m), "marker %r is not a single t_uniq token / not inert" % m, {"kind": "roundtrip", "case": c})
+
+
+def run_tie(run, cases, exe, src):
+    ires = impl_run(cases, src)
+    mres = model_run(exe, cases)
+    dis = []
+    stats = {"tags_protected": 0, "comments": 0, "no_match": 0, "with_0x7f": 0, "exotic_fold": 0, "unclosed_or_selfclosing_text": 0}
+    for c, a, m in zip(cases, ires, mres):
+        t = c["text"]
+        key = (c["rand"], c["k0"], t, c["probe"])
+        if "error" in a:
+            run.hit("replace_tags-exception:" + a["error"][:60], "replace_tags/replace_uniq raised %s on %r" % (a["error"], t[:120]), {"kind": "roundtrip", "case": c})
+            continue
+        ntags = len(a["table"])
+        stats["tags_protected"] += ntags
+        stats["comments"] += t.count("<!--")
+        stats["no_match"] += (ntags == 0 and a["protected"] == t)
+        stats["with_0x7f"] += ("\x7f" in t)
+        stats["exotic_fold"] += any(ch in t for ch in EXOTIC.values())
+        run.count(key, nontrivial=(ntags > 0 or a["protected"] != t))
+        roundtrip_monitor(run, c, a)
+        if m is None:
+            dis.append("model driver error on %r" % t[:100])
+            continue
+        for fld in ("protected", "restored", "probe_restored"):
+            if a[fld] != m[fld]:
+                dis.append("%s differs on %s: impl %r model %r" % (fld, json.dumps(c), a[fld][:160], m[fld][:160]))
+                break
+        else:
+            if [list(x) for x in a["table"]] != m["table"]:
+                dis.append("table differs on %s: impl %r model %r" % (json.dumps(c), a["table"][:3], m["table"][:3]))
+        if ntags and len(run.samples) < 3 and len(t) < 80:
+            run.sample({"tie_text": t, "protected": a["protected"], "restored": a["restored"], "table": a["table"][:2]})
+    return dis, stats
+
+
+# --------------------------------------------------------------------------- the check
+
+def generate(src):
+    from vt.gen import c09_tables
+    return c09_tables.generate(src)
+
+
+def build():
+    return core.ocaml_build("c09", "C09/Extract.v", "driver.ml")
+
+
+KNOWN_CLASSES = {
+    "pp": ("opacity:preprocessor-tag-in-protected-body",
+           "<noinclude>/<includeonly>/<onlyinclude> inside a protected body are interpreted (templ/scanner.py runs pp.preprocess before replace_tags)"),
+    "src": ("opacity:syntaxhighlight-body-reparsed-as-source",
+            "</source> inside <syntaxhighlight> ends the body: tagext.Syntaxhighlight re-parses '<source>body</source>'"),
+}
+
+
+def check(run):
+    run.rule = ("search: wikitext = context[<tag attrs>body</tag>], tag in {nowiki,pre,math,source,syntaxhighlight,timeline}; body = every single "
+                "fragment of a 140-fragment markup alphabet (systematic part, sampled 28% in quick, all in thorough) and random concatenations of "
+                "1..5 (quick) / 1..8 (thorough) fragments not containing the tag's own closing tag nor 0x7f; 12 contexts (top level, alone, list item, "
+                "table cell, bold, each with and without a template universe, positional/named template argument, template body), thorough adds 8 "
+                "more; oracle: tree(context[body]) = tree(context[placeholder]) with the placeholder leaf replaced by the body. "
+                "tie: texts of 1..5 pieces (tag occurrence with attribute/termination/case variants, comment with newline/space borders, markup text, "
+                "marker-like strings) + a systematic tags x attribute forms x termination forms part. distinct = distinct input; "
+                "non-trivial = at least one region replaced (tie) / every search case (all bodies contain markup)")
+    run.trusted = ["Coq 8.16.1 kernel (coqc); vm_compute for the table obligations and the Examples",
+                   "extraction (ExtrOcamlBasic directives only) + ocaml/c09/driver.ml",
+                   "hand-written transcription of the replace_tags regex, replace_uniq, get_uniq (coq/C09/Model.v); tie = differential run; the regex "
+                   "shape, its flags, the tag-name alternation, the marker format, the t_uniq rule text and SPLIT_PATTERN are re-read from the snapshot "
+                   "on every run (vt/gen/c09_tables.py, fail-closed)",
+                   "CPython re: backtracking semantics of the transcribed pattern (leftmost, alternatives in order); its \\s, \\d, IGNORECASE and "
+                   "lower tables are tabulated from the running interpreter into Gen_tables.v, not assumed",
+                   "the tree oracle (vt/harness/c09_tree.py): node serialisation and placeholder alignment"]
+    run.assumptions = ["C09_marker_atomic is about the t_uniq rule alone (longest-match against the rest of _uscan.re is C10's model; labelled _partial)",
+                       "tree-level opacity is established by search only, in the listed contexts",
+                       "round trip is stated for texts without 0x7f and without the four non-ASCII code points that re.IGNORECASE folds onto i, k, s"]
+    src = core.snapshot()
+    info = {}
+
+    def gen():
+        info.update(generate(src))
+    run.check_proofs("C09", gen=gen)
+    exe = build()
+    tier = run.tier
+    names = info.get("names") or OPAQUE
+
+    # ---- corpus first
+    corpus = os.path.join(core.VERIF, "corpus", "C09")
+    ctie, ctree = [], []
+    if os.path.isdir(corpus):
+        for fn in sorted(os.listdir(corpus)):
+            obj = json.load(open(os.path.join(corpus, fn)))
+            (ctie if obj.get("kind") == "roundtrip" else ctree).append(obj["case"])
+
+    # ---- tie: model vs Uniquifier
+    cases = [dict(c, id=-1 - i) for i, c in enumerate(ctie)]
+    cases += systematic_tie_cases(0)
+    n = 2200 if tier == "quick" else 120000
+    base = len(cases)
+    cases += [gen_tie_case(run.rng, base + i, names, tier) for i in range(n)]
+    dis, stats = run_tie(run, cases, exe, src)
+    run.tie("Uniquifier.replace_tags / replace_uniq vs extracted protect / restore (text, table, restored text, probe)", len(cases), dis)
+    run.coverage["tie_distribution"] = stats
+
+    # ---- model-level finite obligations that depend on the generated tables
+    mres = model_run(exe, [c for c in cases[:400]])
+    bad = [c["text"] for c, m in zip(cases[:400], mres) if m and not (m["tuniq"] and m["tok"])
+           and all(re.fullmatch("[a-z0-9]+", e[1]) for e in m["table"])]
+    run.obligation("extracted: every produced marker is one t_uniq token and one template text token", not bad, "; ".join(map(repr, bad[:3])))
+
+    # ---- search on the real parser
+    contexts = dict(CONTEXTS)
+    if tier == "thorough":
+        contexts.update(THOROUGH_CONTEXTS)
+    scases = gen_search_cases(run.rng, tier)
+    for i, c in enumerate(ctree):
+        c = dict(c, id=len(scases) + i)
+        scases.append(c)
+    nproc = 4 if tier == "quick" else 16
+    sres = run_tree(scases, src, nproc)
+    kinds = {}
+    failing = []
+    for c, r in zip(scases, sres):
+        kinds[r["kind"]] = kinds.get(r["kind"], 0) + 1
+        run.count(("tree", c["tag"], c["attrs"], c["variant"], c["ctx"], c["body"]), nontrivial=True)
+        if r["kind"] == "harness_error":
+            raise RuntimeError("tree harness error: " + r["why"])
+        if not r["ok"]:
+            failing.append((c, r))
+        elif len(run.samples) < 6 and c["ctx"] in ("targ", "cell") and len(c["body"]) > 12:
+            run.sample({"wikitext": c["raw"], "db": c["db"], "leaf": r.get("leaf")})
+    # attribution by difference: does the mismatch disappear when the suspected construct is neutralised?
+    attributed = {}
+    for what in ("pp", "src"):
+        todo = []
+        for c, r in failing:
+            if id(c) in attributed:
+                continue
+            if what == "src" and c["tag"] != "syntaxhighlight":
+                continue
+            v = neutralise(c, what, contexts) if c["ctx"] in contexts else None
+            if v is not None:
+                todo.append((c, r, v))
+        if not todo:
+            continue
+        vres = run_tree([dict(v, id=j) for j, (_c, _r, v) in enumerate(todo)], src, nproc)
+        for (c, r, v), vr in zip(todo, vres):
+            if vr["ok"]:
+                attributed[id(c)] = what
+    by_class = {}
+    for c, r in failing:
+        cls = attributed.get(id(c), "other")
+        by_class.setdefault(cls, []).append((c, r))
+    for cls, lst in sorted(by_class.items()):
+        lst.sort(key=lambda cr: (len(cr[0]["body"]), cr[0]["ctx"], cr[0]["tag"]))
+        if cls in KNOWN_CLASSES:
+            fp, what = KNOWN_CLASSES[cls]
+            c, r = lst[0]
+            run.hit(fp, "%s; %d cases, smallest: tag %s, context %s, body %r: %s" % (what, len(lst), c["tag"], c["ctx"], c["body"], r["why"][:200]),
+                    {"kind": "tree", "case": c, "why": r["why"]})
+        else:
+            seen = set()
+            for c, r in lst[:3]:
+                m = shrink(c, src, contexts) if c["ctx"] in contexts else c
+                fp = "opacity:%s:%s:%s" % (m["tag"], m["ctx"], json.dumps(m["body"]))
+                if fp in seen:
+                    continue
+                seen.add(fp)
+                run.hit(fp, "body of <%s> not opaque in context %s: %r (%s)" % (m["tag"], m["ctx"], m["body"], r["why"][:200]),
+                        {"kind": "tree", "case": m, "why": r["why"]})
+    run.coverage["search_outcomes"] = kinds
+    run.coverage["search_mismatch_classes"] = {k: len(v) for k, v in by_class.items()}
+    run.coverage["exhaustive"] = False
+    run.coverage["exhaustive_part"] = ("tie: 8 tags x %d attribute forms x 6 termination forms x 2 cases; search (thorough): every alphabet fragment "
+                                       "x 6 tags x all contexts" % len(TIE_ATTRS))
+    dist = {}
+    for c in scases:
+        dist[c["ctx"]] = dist.get(c["ctx"], 0) + 1
+    run.coverage["input_distribution"] = {"search_cases_per_context": dist,
+                                          "search_cases_per_tag": {t: sum(1 for c in scases if c["tag"] == t) for t in OPAQUE},
+                                          "search_body_len_max": max(len(c["body"]) for c in scases),
+                                          "tie_cases": len(cases), "tie_text_len_max": max(len(c["text"]) for c in cases)}
+
+
+def replay(obj):
+    src = core.snapshot()
+    rp = obj["replay"]
+    if rp.get("kind") == "tree":
+        c = dict(rp["case"], id=0, dump=False)
+        r = run_tree([c], src, 1)[0]
+        print(json.dumps({"wikitext": c["raw"], "db": c["db"], "result": r}, indent=1, ensure_ascii=False))
+        bad = not r["ok"]
+    elif rp.get("kind") == "roundtrip":
+        c = dict(rp["case"], id=0)
+        r = impl_run([c], src)[0]
+        print(json.dumps({"text": c["text"], "result": r}, indent=1, ensure_ascii=True))
+
+        class _R:
+            hits = []
+
+            def hit(self, fingerprint, what, replay):
+                self.hits.append(what)
+        rr = _R()
+        roundtrip_monitor(rr, c, r)
+        print("\n".join(rr.hits))
+        bad = bool(rr.hits) or "error" in r
+    else:
+        print(json.dumps(rp, indent=1))
+        return 1
+    print("REPRODUCED" if bad else "not reproduced")
+    return 1 if bad else 0
